@@ -324,6 +324,8 @@ def jobs(tier, seed):
         ['all', T, EF], ['any', T, EF], ['all', EF, EO], ['any', EF, T], ['and', T, EF], ['or', EF, P],
         ['all', ['any', T, T], T], ['any', ['all', T, T], T], ['or', ['and', T, T], T], ['and', ['or', T, EO], P],
         ['all', ['any', T, EF], T], ['any', ['all', T, EF], T], ['all', T], ['any', EF],
+        # depth 3 with partial progress at the deepest level when the root is met
+        ['or', ['or', ['and', T, T], T], T], ['any', ['all', ['any', T, T], T], T],
     ]
     if tier != 'quick':
         trees += [['all', ['any', T, T], ['any', T, T]], ['any', ['all', T, T], ['all', T, T]],
